@@ -383,6 +383,8 @@ HashLaws ==
     \* a missing path has a hash of its own, for every class whose hash looks at the file
     /\ g.ex => /\ FileHashOf("File", p, Missing, FALSE) # FileHashOf("File", p, g, FALSE)
                /\ FileHashOf("ContentFile", p, Missing, FALSE) # FileHashOf("ContentFile", p, g, FALSE)
+\* (constant-level: evaluated in the initial state only when used as an invariant)
+HashLawsInit == nops = 0 => HashLaws
 \* ... and as transitions: a step that keeps the bytes of an existing file keeps its content hash
 ContentBytesOnly ==
   [][\A p \in Paths : (s.fs[p].ex /\ s'.fs[p].ex) =>
